@@ -1127,6 +1127,11 @@ func RunBig(p *plan.Plan) *plan.Result {
 	for _, s := range p.BigSteps {
 		h = plan.Mix(h ^ hashString(s.Op+s.S+s.F) ^ uint64(s.Z)<<3 ^ uint64(s.X)<<7 ^ uint64(s.Y)<<11 ^ uint64(s.N)<<17)
 	}
+	if globalSnap != nil {
+		if d := globalSnap.Check(); d != "" {
+			st["globals_changed"]++
+		}
+	}
 	res.Sig = fmt.Sprintf("%016x", h)
 	res.Nontrivial = nontrivial
 	return res
